@@ -736,7 +736,7 @@ impl<'c, 's, 'ast> Visit<'ast> for FnVisitor<'c, 's> {
     fn visit_stmt(&mut self, s: &'ast syn::Stmt) {
         // R5: elide `std::thread::spawn(..);` statements.
         if let syn::Stmt::Expr(syn::Expr::Call(c), Some(_)) = s {
-            if is_path_ending(&c.func, &["thread", "spawn"]) {
+            if is_path_ending(&c.func, &["thread", "spawn"]) && std::env::var("VX_KEEP_SPAWN").is_err() {
                 let (a, b) = br(s.span());
                 self.cx.edit(a, b, "/* R5: thread::spawn elided */", "R5");
                 return; // do not descend
@@ -888,6 +888,39 @@ impl<'c, 's, 'ast> Visit<'ast> for FnVisitor<'c, 's> {
                     self.visit_expr(&inner.receiver);
                     self.visit_expr(&cl.body);
                     return;
+                }
+            }
+        }
+        // R6: RECV.iter().rposition(|&c| BODY) -> explicit backwards scan
+        if name == "rposition" && m.args.len() == 1 {
+            if let (syn::Expr::MethodCall(inner), syn::Expr::Closure(cl)) = (&*m.receiver, &m.args[0]) {
+                if inner.method == "iter" && inner.args.is_empty() && cl.inputs.len() == 1 {
+                    if let syn::Pat::Reference(r) = &cl.inputs[0] {
+                        if let syn::Pat::Ident(pi) = &*r.pat {
+                            let id = pi.ident.to_string();
+                            let n = self.r6n;
+                            self.r6n += 1;
+                            let (rs, re) = br(inner.receiver.span());
+                            let (_, pe) = br(cl.inputs[0].span());
+                            let (bs, be) = br(cl.body.span());
+                            let (_, me) = br(m.span());
+                            self.cx.edit(rs, rs, "{ let vx_s = &(", "R6");
+                            self.cx.edit(
+                                re,
+                                pe,
+                                format!(
+                                    "); let mut vx_i: usize = vx_s.len(); let mut vx_r: Option<usize> = None; /*@R6RINV:{}*/ while vx_i > 0 {{ vx_i -= 1; let {} = vx_s[vx_i];",
+                                    n, id
+                                ),
+                                "R6",
+                            );
+                            self.cx.edit(pe, bs, " if ", "R6");
+                            self.cx.edit(be, me, " { vx_r = Some(vx_i); break; } } vx_r }", "R6");
+                            self.visit_expr(&inner.receiver);
+                            self.visit_expr(&cl.body);
+                            return;
+                        }
+                    }
                 }
             }
         }
